@@ -68,6 +68,10 @@ def scenarios(ctx):
                 steps.append({"op": "extract", "variable": "client.ip", "kind": "ip",
                               "raw": rng.choice(["", "nohostport", ":1234", "[::1", "::1", "1.2.3.4", "[]:80", "@", "a:b:c:d"]),
                               "extra": rng.choice([{}, {"X-Real-Ip": "10.9.9.9"}, {"X-Forwarded-For": "10.9.9.9"}])})
+            if rng.random() < 0.3:    # the very same request again, back to back (a keep-alive connection): same outcome
+                rep = dict(steps[-1])
+                for _ in range(rng.randint(1, 2)):
+                    steps.append(dict(rep))
         out.append({"id": "rnd-%d" % i, "cfg": {}, "steps": steps})
     return out
 
